@@ -36,7 +36,7 @@ COMPONENTS = {
 }
 PROBES = ["subscribe-duplicate", "unsubscribe-all", "node-replaced", "node-removed", "frame-for-dead-node", "error-frame", "remote-frame",
           "duplicate-frame", "extended-id-sent", "extended-id-received", "extra-sdo-channel", "scanner-reset", "node-re-added",
-          "unsubscribe-all-on-node-id", "removal-refused-after-application-unsubscribed-node-id"]
+          "unsubscribe-all-on-node-id", "removal-refused-after-application-unsubscribed-node-id", "subscriptions-changed-during-dispatch"]
 # probes that mark an injected disturbance; the runner also counts them as fired faults in the evidence
 FAULT_PROBES = {'duplicate-frame': 'duplicate-frame', 'error-frame': 'error-frame', 'frame-for-dead-node': 'frame-for-removed-node', 'remote-frame': 'remote-frame'}
 
@@ -83,10 +83,30 @@ class World:
         self.scanner_model = []
         self.lss_q = 0
         self.limbo = set()          # node ids whose removal failed half-way (see _failed_removal)
+        self.armed = {}             # cb key -> (action, other cb key, can id): done once, from inside the callback, when it is next invoked for that id
+        self.acted = None           # what an armed callback did during the current dispatch
 
     def _make_cb(self, k):
         def cb(can_id, data, timestamp):
             self.log.append((k, can_id, bytes(data), timestamp))
+            act = self.armed.get(k)
+            if act is not None and act[2] == can_id:
+                # a callback that changes the subscriptions of its own CAN id while the frame is being dispatched
+                # (a one-shot handler taking itself off, a handler swapping another one in or out)
+                del self.armed[k]
+                what, other, _ = act
+                lst = self.subs.setdefault(can_id, [])
+                if what == "unsub-self":
+                    self.net.unsubscribe(can_id, self.cbs[k])
+                    lst.remove(k)
+                elif what == "unsub-other" and other in lst and other != k:
+                    self.net.unsubscribe(can_id, self.cbs[other])
+                    lst.remove(other)
+                elif what == "sub-other":
+                    self.net.subscribe(can_id, self.cbs[other])
+                    if other not in lst:
+                        lst.append(other)
+                self.acted = (k, what, other)
         cb.__name__ = "cb%d" % k
         return cb
 
@@ -157,6 +177,8 @@ def _receive(ctx, w, can_id, data, kind="data"):
     net, bus = w.net, w.bus
     before_live = {nid: rec.fingerprint() for nid, rec in w.nodes.items()}
     before_dead = [rec.fingerprint() for rec in w.dead]
+    pre = list(w.subs.get(can_id, []))      # subscribed when the frame arrives
+    w.acted = None
     mark = len(w.log)
     nbus = w.ch.n
     ext = can_id > 0x7FF
@@ -176,6 +198,22 @@ def _receive(ctx, w, can_id, data, kind="data"):
         for t in ts:
             for k in w.subs.get(can_id, []):
                 exp.append((k, can_id, data, t))
+    if w.acted is not None and dispatched and copies == 1:
+        # the subscriptions of this id changed while the frame was being dispatched.  "Currently subscribed" is then only
+        # clear for the callbacks that were subscribed when the frame arrived AND still are afterwards: each of them exactly
+        # once, in subscription order, with the frame's arguments; one that was added or removed on the way: once or not at all
+        post = list(w.subs.get(can_id, []))
+        firm = [k for k in pre if k in post]
+        got_firm = [g for g in got if g[0] in firm]
+        exp_firm = [(k, can_id, data, ts[0]) for k in firm]
+        stray = [g for g in got if g[0] not in pre and g[0] not in post]
+        twice = [k for k in set(g[0] for g in got) if sum(1 for g in got if g[0] == k) > 1]
+        ctx.probe("subscriptions-changed-during-dispatch")
+        if got_firm != exp_firm or stray or twice:
+            ctx.violation("C10/callback-delivery/subscriptions-changed-during-dispatch/%s" % w.acted[1],
+                          "%s: callback cb%d did '%s' (cb%d) while the frame was dispatched; subscribed at arrival %r, afterwards %r; invoked %r - every callback "
+                          "subscribed before and after must be invoked exactly once" % (what, w.acted[0], w.acted[1], w.acted[2], pre, post, [g[0] for g in got]))
+        exp = got
     if got != exp:
         ctx.violation("C10/callback-delivery/%s" % ("not-dispatchable-frame" if not dispatched else
                                                    ("count" if len(got) != len(exp) else ("order" if sorted(got) == sorted(exp) else "arguments"))),
@@ -366,7 +404,7 @@ def scenario(ctx):
     for i in range(nops):
         with ctx.span("op"):
             op = ctx.weighted(((10, "rx"), (5, "sub"), (3, "unsub"), (1, "unsub-all"), (3, "add"), (2, "del"), (2, "tx"), (1, "txp"),
-                               (2, "rx-special"), (1, "scan-reset"), (1, "re-add"), (1, "unsub-all-node")), "op")
+                               (2, "rx-special"), (1, "scan-reset"), (1, "re-add"), (1, "unsub-all-node"), (2, "arm")), "op")
             if op == "rx":
                 can_id = _pick_id(ctx, w)
                 _receive(ctx, w, can_id, _frame_for(ctx, w, can_id))
@@ -405,6 +443,19 @@ def scenario(ctx):
                     w.subs[cid] = []
                     ctx.probe("unsubscribe-all")
                     ctx.cover(("unsub-all",))
+            elif op == "arm":
+                # a frame during whose dispatch one of the callbacks changes the subscriptions of that id
+                cands = sorted(cid for cid, ks in w.subs.items() if len(ks) >= 2)
+                if cands:
+                    cid = cands[ctx.choice(len(cands), "which")]
+                    ks = w.subs[cid]
+                    k = ks[ctx.choice(len(ks), "armcb")]
+                    what_ = ("unsub-self", "unsub-other", "sub-other")[ctx.choice(3, "armwhat")]
+                    other = ctx.choice(5, "armother")
+                    w.armed = {k: (what_, other, cid)}
+                    ctx.op("arm", "cb%d" % k, what_, "cb%d" % other, hex(cid))
+                    _receive(ctx, w, cid, _frame_for(ctx, w, cid))
+                    w.armed = {}
             elif op == "unsub-all-node":
                 # the application unsubscribes everything on one of a live node's own service ids
                 if w.nodes:
